@@ -81,3 +81,24 @@ def replay_c01(name, model, rec):
                "raise:CancelledError"}
     return dict(reproduced=kind not in allowed, input=desc, observed=f"{kind}: {out.get('exc')!r}",
                 required=f"one of {sorted(allowed)} or a matching response")
+
+
+def replay_c18(name, model, rec):
+    """cross-talk: a response with a foreign id handed to this caller; loss: a foreign response consumed and dropped"""
+    req_id = model.get("req_id")
+    if not isinstance(req_id, str) or not req_id:
+        return None
+    if "discarded" in name:
+        cid = _plain(model.get("consumed_id"))
+        foreign = _msg(cid, None, {"ok": True}, None)
+        out = run_send_message([foreign], req_id, timeout=0.3)
+        # the foreign response was consumed from the shared stream and is gone
+        return dict(reproduced=out["kind"] != "return", input=dict(req_id=req_id, incoming=[foreign.model_dump()]),
+                    observed=f"{out['kind']}; the response for id {cid!r} was consumed and dropped",
+                    required="a response addressed to another waiter must not be discarded")
+    last = _msg(_plain(model.get("last_id")), _plain(model.get("last_method")), {"ok": 1}, None)
+    out = run_send_message([last], req_id, timeout=0.3)
+    if out["kind"] == "return":
+        return dict(reproduced=not is_match(last, req_id), input=dict(req_id=req_id, incoming=[last.model_dump()]),
+                    observed=f"returned {out['result']!r}", required="only a response bearing the caller's own id")
+    return dict(reproduced=False, observed=out["kind"])
